@@ -18,6 +18,7 @@ import (
 	"os"
 	"path/filepath"
 	"runtime"
+	"runtime/pprof"
 	"sort"
 	"strings"
 	"sync"
@@ -526,6 +527,24 @@ func TestCheck(t *testing.T) {
 	r.Assume("a watchdog expiry (20s) is a hang only when the same input expires 3 more times with nothing else running and then also does not return within 150s alone; otherwise inconclusive (slow input)")
 	r.Assume("unrecoverable runtime errors (stack exhaustion, out of memory) in in-process entry points would abort the check as BROKEN with the input left in replay/C19/current/")
 
+	if prof := os.Getenv("VERIF_C19_MEMPROF"); prof != "" {
+		// development aid: heap profile when the heap grows beyond 4 GiB
+		go func() {
+			for n := 0; ; {
+				time.Sleep(5 * time.Second)
+				var ms runtime.MemStats
+				runtime.ReadMemStats(&ms)
+				if ms.HeapAlloc > uint64(4+4*n)<<30 {
+					if f, err := os.Create(fmt.Sprintf("%s.%d", prof, n)); err == nil {
+						_ = pprof.WriteHeapProfile(f)
+						f.Close()
+					}
+					fmt.Printf("NOTE: heap %d MiB, goroutines %d\n", ms.HeapAlloc>>20, runtime.NumGoroutine())
+					n++
+				}
+			}
+		}()
+	}
 	cur := filepath.Join(ev.Root(), "replay", "C19", "current")
 	_ = os.MkdirAll(cur, 0o755)
 	h := &harness{r: r, t: t, stats: map[string]*stats{}, current: cur, hangs: map[string]bool{}}
